@@ -3,6 +3,7 @@ package props
 import (
 	"fmt"
 	"reflect"
+	"strconv"
 	"strings"
 	"sync"
 
@@ -87,8 +88,8 @@ func c15GenType(tp *core.Tape, ti int) *c15type {
 				f.tags = append(f.tags, s)
 			}
 		}
-		if tp.Chance("default", 1, 5) && f.kind != 7 && f.kind != 6 {
-			f.def = []string{"dflt", "7", "7", "7", "true", "1.5"}[f.kind]
+		if tp.Chance("default", 1, 5) {
+			f.def = []string{"dflt", "7", "7", "7", "true", "1.5", "7", "['d1','d2']"}[f.kind]
 		}
 		f.required = f.def == "" && tp.Chance("required", 1, 6)
 		var tag []string
@@ -102,7 +103,7 @@ func c15GenType(tp *core.Tape, ti int) *c15type {
 			}
 		}
 		if f.def != "" {
-			tag = append(tag, fmt.Sprintf(`default:"%s"`, f.def))
+			tag = append(tag, "default:"+strconv.Quote(f.def))
 		}
 		var ft reflect.Type
 		switch f.kind {
@@ -275,6 +276,11 @@ func c15Bind(b binding.Binder, t *c15type, r *c15req, api int) string {
 func c15Model(t *c15type, r *c15req) string {
 	if t.hasUntagged {
 		return "" // untagged fields follow the default-tag rules, outside the small model
+	}
+	for _, f := range t.fields {
+		if f.def != "" && (f.kind == 6 || f.kind == 7) {
+			return "" // defaults of pointer and slice fields: judged by the differential oracle only
+		}
 	}
 	jsonPresent := len(r.vals["json"]) > 0
 	formPresent := len(r.vals["form"]) > 0
